@@ -189,6 +189,11 @@ impl Send {
             frame.stream_id()
         );
 
+        // Interim responses precede the final response head.
+        if !stream.state.is_send_awaiting_headers() {
+            return Err(UserError::UnexpectedFrameType);
+        }
+
         // Validate headers
         Self::check_headers(frame.fields())?;
 
